@@ -148,7 +148,15 @@ def check(drv, pid, tier, seed):
     reported = 0
     refinement = cfg.get('refinement', cfg['kind'] == 'pool')
     extra = meta.get('extra') or {}
-    pred = {pv['case']: pv['violated'] for pv in (extra.get('predicate_violations') or [])}
+    pred = {}
+    for pv in (extra.get('predicate_violations') or []):
+        if isinstance(pv, dict):
+            pred.setdefault(pv['case'], []).extend(pv['violated'])
+        else:
+            # "case <n>: <what>" (generators that list their predicate failures as text)
+            mm = re.match(r'case (\d+): (.*)$', str(pv), re.S)
+            if mm:
+                pred.setdefault(int(mm.group(1)), []).append(mm.group(2))
     known = [k for k in drv.load_findings().get('known', []) if isinstance(k, dict) and k.get('property') == pid]
     known_hit = {}
 
